@@ -252,11 +252,47 @@ seeder_rdrand_with_fallback(const br_prng_class **ctx)
 }
 #endif
 
+#ifdef BR_VERIF
+static int
+seeder_verif_fixed(const br_prng_class **ctx)
+{
+	br_verif_seeder_calls ++;
+	(*ctx)->update(ctx, br_verif_seed, sizeof br_verif_seed);
+	return 1;
+}
+
+static int
+seeder_verif_fail(const br_prng_class **ctx)
+{
+	(void)ctx;
+	br_verif_seeder_calls ++;
+	return 0;
+}
+#endif
+
 /* see bearssl_rand.h */
 
 br_prng_seeder
 br_prng_seeder_system(const char **name)
 {
+#ifdef BR_VERIF
+	if (br_verif_seeder_mode == 1) {
+		if (name != NULL) {
+			*name = "verif-fixed";
+		}
+		return &seeder_verif_fixed;
+	} else if (br_verif_seeder_mode == 2) {
+		if (name != NULL) {
+			*name = "verif-fail";
+		}
+		return &seeder_verif_fail;
+	} else if (br_verif_seeder_mode == 3) {
+		if (name != NULL) {
+			*name = "none";
+		}
+		return 0;
+	}
+#endif
 #if BR_RDRAND
 	if (rdrand_supported()) {
 		if (name != NULL) {
